@@ -211,6 +211,9 @@ type rawBlob struct {
 	// declared (compressed) block sizes, when non-zero, replace the real ones: [message, tags, values]
 	blockSize [3]uint64
 	compSize  uint64 // declared size of the whole remainder, when non-zero
+	// emptyBlock: the block [message, tags, values] is stored as size 0 (no type byte, no payload) while its declared
+	// uncompressed size stays as it is
+	emptyBlock [3]bool
 }
 
 func decodeBlob(b []byte) (*rawBlob, error) {
@@ -240,12 +243,17 @@ func (rb *rawBlob) encode() []byte {
 	body = putUvarint(body, rb.tapeSize)
 	body = putUvarint(body, rb.stringsSize)
 	body = putUvarint(body, 0) // strings block: empty
-	body = putUvarint(body, rb.msgSize)
-	body = encodeBlockRaw(body, rb.msg, rb.msgTyp, rb.msgSize, rb.blockSize[0])
-	body = putUvarint(body, rb.tagsSize)
-	body = encodeBlockRaw(body, rb.tags, rb.tagsTyp, rb.tagsSize, rb.blockSize[1])
-	body = putUvarint(body, rb.valSize)
-	body = encodeBlockRaw(body, rb.vals, rb.valsTyp, rb.valSize, rb.blockSize[2])
+	block := func(k int, raw []byte, typ byte, declared uint64) {
+		body = putUvarint(body, declared)
+		if rb.emptyBlock[k] {
+			body = putUvarint(body, 0)
+			return
+		}
+		body = encodeBlockRaw(body, raw, typ, declared, rb.blockSize[k])
+	}
+	block(0, rb.msg, rb.msgTyp, rb.msgSize)
+	block(1, rb.tags, rb.tagsTyp, rb.tagsSize)
+	block(2, rb.vals, rb.valsTyp, rb.valSize)
 	out := []byte{rb.version}
 	cs := uint64(len(body))
 	if rb.compSize != 0 {
@@ -463,7 +471,10 @@ func mutateBlob(t *rapid.T, blob []byte) ([]byte, string) {
 		kind := "structure"
 		n := rapid.IntRange(1, 3).Draw(t, "nsm")
 		for i := 0; i < n; i++ {
-			switch rapid.IntRange(0, 14).Draw(t, "sm") {
+			switch rapid.IntRange(0, 15).Draw(t, "sm") {
+			case 15: // a block stored empty although a size is declared for it
+				rb.emptyBlock[rapid.IntRange(0, 2).Draw(t, "eb")] = true
+				kind = "structure-empty-block"
 			case 0, 1, 2: // change a tag
 				if len(rb.tags) > 0 {
 					p := rapid.IntRange(0, len(rb.tags)-1).Draw(t, "tp")
